@@ -167,6 +167,9 @@ UNARY = {
     'sum': lambda x: sum(x), 'max': lambda x: max(x), 'enumerate': lambda x: list(enumerate(x)),
     'isinstance_own': lambda x: isinstance(x, _real_type(x)), 'isinstance_str': lambda x: isinstance(x, str),
     'isinstance_num': lambda x: isinstance(x, (int, float)), 'unpack': lambda x: [*x],
+    # asking for an iterator without consuming it: fails at once on a value that cannot be iterated
+    'iter_only': lambda x: iter(x) is not None, 'zip_only': lambda x: zip(x) is not None, 'enumerate_only': lambda x: enumerate(x) is not None,
+    'first_of_iter': lambda x: next(iter(x)),
     'str_mul_r': lambda x: 'ab' * x,
     'tuple': tuple, 'list': list, 'set': lambda x: set(x), 'dict': lambda x: dict(x), 'any': any,
     'join': lambda x: ','.join(x),
